@@ -276,3 +276,156 @@ macro_rules! shadow_curve {
         );
     }};
 }
+
+/// representation types: every `PrimeFieldRepr` method called on the concrete type vs through the trait,
+/// plus the byte I/O methods under a writer / reader that handles a few bytes per call (the bytes written must
+/// be complete whenever Ok is returned)
+pub struct Dribble {
+    pub out: Vec<u8>,
+    pub per_call: usize,
+}
+impl std::io::Write for Dribble {
+    fn write(&mut self, buf: &[u8]) -> std::io::Result<usize> {
+        let n = buf.len().min(self.per_call);
+        self.out.extend_from_slice(&buf[..n]);
+        Ok(n)
+    }
+    fn flush(&mut self) -> std::io::Result<()> {
+        Ok(())
+    }
+}
+pub struct DribbleReader<'a> {
+    pub data: &'a [u8],
+    pub pos: usize,
+    pub per_call: usize,
+}
+impl<'a> std::io::Read for DribbleReader<'a> {
+    fn read(&mut self, buf: &mut [u8]) -> std::io::Result<usize> {
+        let n = buf.len().min(self.per_call).min(self.data.len() - self.pos);
+        buf[..n].copy_from_slice(&self.data[self.pos..self.pos + n]);
+        self.pos += n;
+        Ok(n)
+    }
+}
+
+#[macro_export]
+macro_rules! shadow_repr {
+    ($ctx:expr, $name:expr, $R:ty, $vals:expr) => {{
+        use ff::PrimeFieldRepr;
+        let vals: &Vec<$R> = $vals;
+        let ops = ["num_bits", "is_zero/is_odd/is_even", "div2", "mul2", "shr", "shl", "add_nocarry", "sub_noborrow", "write_be", "write_le", "read_be", "read_le", "dribbling writer", "dribbling reader"];
+        let n = vals.len() as u64;
+        let rad = [ops.len() as u64, n, n.min(16)];
+        $ctx.sweep(
+            &format!("{}.concrete_vs_trait_calls", $name),
+            $crate::infra::space(&rad),
+            |i| {
+                let d = unrank(i, &rad);
+                json!({"type": $name, "op": ops[d[0]], "operand_index": d[1], "second": d[2]})
+            },
+            |i| {
+                let d = unrank(i, &rad);
+                let x: $R = vals[d[1]];
+                let y: $R = vals[(d[2] * 5 + 3) % vals.len()];
+                let amt = (d[2] as u32) * 23 + 1;
+                let ok = match d[0] {
+                    0 => x.num_bits() == <$R as PrimeFieldRepr>::num_bits(&x),
+                    1 => x.is_zero() == <$R as PrimeFieldRepr>::is_zero(&x) && x.is_odd() == <$R as PrimeFieldRepr>::is_odd(&x) && x.is_even() == <$R as PrimeFieldRepr>::is_even(&x),
+                    2 => {
+                        let (mut a, mut b) = (x, x);
+                        a.div2();
+                        <$R as PrimeFieldRepr>::div2(&mut b);
+                        a == b
+                    }
+                    3 => {
+                        let (mut a, mut b) = (x, x);
+                        a.mul2();
+                        <$R as PrimeFieldRepr>::mul2(&mut b);
+                        a == b
+                    }
+                    4 => {
+                        let (mut a, mut b) = (x, x);
+                        a.shr(amt);
+                        <$R as PrimeFieldRepr>::shr(&mut b, amt);
+                        a == b
+                    }
+                    5 => {
+                        let (mut a, mut b) = (x, x);
+                        a.shl(amt);
+                        <$R as PrimeFieldRepr>::shl(&mut b, amt);
+                        a == b
+                    }
+                    6 => {
+                        // only inside the no-carry precondition: halve both operands first
+                        let (mut p, mut q) = (x, y);
+                        p.div2();
+                        q.div2();
+                        let (mut a, mut b) = (p, p);
+                        a.add_nocarry(&q);
+                        <$R as PrimeFieldRepr>::add_nocarry(&mut b, &q);
+                        a == b
+                    }
+                    7 => {
+                        let (hi, lo) = if x >= y { (x, y) } else { (y, x) };
+                        let (mut a, mut b) = (hi, hi);
+                        a.sub_noborrow(&lo);
+                        <$R as PrimeFieldRepr>::sub_noborrow(&mut b, &lo);
+                        a == b
+                    }
+                    8 | 9 => {
+                        let (mut a, mut b) = (vec![], vec![]);
+                        if d[0] == 8 {
+                            x.write_be(&mut a).unwrap();
+                            <$R as PrimeFieldRepr>::write_be(&x, &mut b).unwrap();
+                        } else {
+                            x.write_le(&mut a).unwrap();
+                            <$R as PrimeFieldRepr>::write_le(&x, &mut b).unwrap();
+                        }
+                        a == b
+                    }
+                    10 | 11 => {
+                        let mut bytes = vec![];
+                        if d[0] == 10 {
+                            <$R as PrimeFieldRepr>::write_be(&x, &mut bytes).unwrap();
+                        } else {
+                            <$R as PrimeFieldRepr>::write_le(&x, &mut bytes).unwrap();
+                        }
+                        let (mut a, mut b) = (<$R>::default(), <$R>::default());
+                        if d[0] == 10 {
+                            a.read_be(&bytes[..]).unwrap();
+                            <$R as PrimeFieldRepr>::read_be(&mut b, &bytes[..]).unwrap();
+                        } else {
+                            a.read_le(&bytes[..]).unwrap();
+                            <$R as PrimeFieldRepr>::read_le(&mut b, &bytes[..]).unwrap();
+                        }
+                        a == b && a == x
+                    }
+                    12 => {
+                        // a writer that accepts 1..5 bytes per call: Ok must mean that every byte was written
+                        let mut want = vec![];
+                        <$R as PrimeFieldRepr>::write_be(&x, &mut want).unwrap();
+                        let mut w = $crate::shadow::Dribble { out: vec![], per_call: 1 + d[2] % 5 };
+                        match x.write_be(&mut w) {
+                            Ok(()) => w.out == want,
+                            Err(_) => false,
+                        }
+                    }
+                    _ => {
+                        let mut bytes = vec![];
+                        <$R as PrimeFieldRepr>::write_be(&x, &mut bytes).unwrap();
+                        let mut r = $crate::shadow::DribbleReader { data: &bytes, pos: 0, per_call: 1 + d[2] % 5 };
+                        let mut a = <$R>::default();
+                        match a.read_be(&mut r) {
+                            Ok(()) => a == x,
+                            Err(_) => false,
+                        }
+                    }
+                };
+                if !ok {
+                    return Err(Fail::new(format!("{}: {} on the concrete representation type differs from the integer / trait behaviour (an inherent method shadows the trait method, or short reads/writes are mishandled)", $name, ops[d[0]])));
+                }
+                Ok(ops[d[0]])
+            },
+        );
+    }};
+}
